@@ -193,17 +193,40 @@ LEVEL_TEXT = ("Machine-checked Coq theorems for all inputs: (1) the sign fix-up 
               "mul::memory_requirement_exact, for every pair of lengths (induction; Toom-3 depth d with 32*3^d <= 2n-5 and "
               "3^20 > 2^31 give the 13*ceil_log2 term); (5) primitive-typed operands and is_multiple_of_const = truncating "
               "division resp. (r = 0) with the exact unwrap-panic class, the macro rows REGENERATED and checked against the model. "
-              "Models tied to the code by a correspondence run on every check (fidelity 100%).")
-LEVEL_NOTE = ("Hand-transcribed (tied by the run, not regenerated): the bodies of the word kernels, helpers::add_signed_mul_split_into_chunks "
-              "(memory model), the helpers of div_ops.rs::repr, Buffer::{pop_zeros, push_resizing, erase_front, clone_from_slice}. "
+              "(6) round 4 - the LOOP KERNELS THEMSELVES are regenerated from the source on every run (tools/translate_c02_r4.py over "
+              "the loop translator of C01, coq/gen/DivKernelsGen.v): div_by_word_in_place, fast_div_by_word_in_place (reverse loop), "
+              "rem_by_word, fast_rem_by_normalized_word (index loop), div_by_dword_in_place (power-of-two path with n1 | n2), "
+              "fast_div_by_dword_in_place (split_last twice, rchunks_exact_mut(2) 4-by-2 chunks, odd tail), rem_by_dword, "
+              "fast_rem_by_normalized_dword, normalize, simple::div_rem_highest_word, simple::div_rem_in_place (the shrinking-window "
+              "loop), the THRESHOLD_SIMPLE switch, div_rem_unshifted_in_place and the part of the divide-and-conquer step after the "
+              "recursive calls (add_signed_mul, q_overflow subtraction, the correction `while`): each generated function is proved EQUAL "
+              "to the hand model for every word size and every instance of the primitives (premises: the operand ranges the Rust types "
+              "give, and well-formed words where a bool carry is compared with an integer one); likewise the helpers of "
+              "div_ops.rs::repr (div_rem_in_lhs, div_rem_large, div_large, rem_large; coq/gen/DivReprGen.v); entry points built only from "
+              "generated code return (a / b, a mod b) for all operands, w >= 8; (7) ConstDivisor construction for Single / Double / Large "
+              "with the stored fields: new / from_word / from_dword of 0 panic DivideBy0, shift = leading zeros, stored divisor = n << "
+              "shift is normalised, the reciprocal is floor((B^2-1)/d) - B resp. floor((B^3-1)/d) - B (num-modular's invert_word / "
+              "invert_double_word transcribed; no debug assertion of the constructors fires), value() = n, from_* = new; (8) every "
+              "debug_assert*! of div / div_const / div_ops / mul whose argument has side effects is the crate's always-evaluating "
+              "debug_assert_zero! (list regenerated, decided by computation). "
+              "Models tied to the code by a correspondence run on every check (fidelity 100%), in three builds: verif profile, RELEASE "
+              "profile (debug assertions and overflow checks off) and force_bits=\"32\" (word-level models run at w = 32).")
+LEVEL_NOTE = ("Hand-transcribed (tied by the run, not regenerated): the RECURSION of divide_conquer.rs (div_rem_in_place, _same_len, the recursive "
+              "calls of _small_quotient; its tail is regenerated), the kernels of OTHER files the division code calls (shift.rs, add.rs, "
+              "mul/mod.rs sub_mul_word, cmp.rs, math.rs shr_word / shl_dword, primitive.rs - atoms k_* of Int/DivKernelsBase.v = the hand models "
+              "of DivWordModel.v; C01 / C09 regenerate those files), the *_large_dword helpers and the panic_divide_by_0 calls of "
+              "div_ops.rs::repr, the Small x Const arms and rem paths of div_const.rs::repr, helpers::add_signed_mul_split_into_chunks "
+              "(memory model), Buffer::{pop_zeros, push_resizing, erase_front, clone_from_slice}. ConstDivisor's stored fields are private: the "
+              "run reads them off the derived Debug output. "
               "The memory theorems are about lengths; that the allocator hands out exactly the requested words (memory.rs, no padding "
               "for Word slices) is observed by the run: the smallest scratch size with which the real kernel completes (bisection through "
               "the hook div_kernel_scratch / mul_kernel_scratch) equals the model's peak in every case. The canonical Repr of a result is "
               "proved for the model; the run compares values (all call forms must agree). A proof break of a regenerated fragment "
               "without a failing input is reported as VIOLATION ... no-failing-input-found. Trusted: Coq kernel, translators, "
               "extraction + FastZ.v, zarith, harness.")
-TECHNIQUE = ("Coq proof (sign tables, ownership arms, memory formulas and allocation traces, primitive macro rows regenerated from source; "
-             "word-level algorithm models) + extracted-model correspondence run")
+TECHNIQUE = ("Coq proof (sign tables, ownership arms, memory formulas and allocation traces, primitive macro rows AND the loop kernels of "
+             "division regenerated from source; word-level algorithm models) + extracted-model correspondence run in three builds "
+             "(verif, release, 32-bit words)")
 RULE = ("cases = call form (every operator / trait / ownership variant / Assign twin is evaluated inside one case and must agree) x "
         "type pairing {UBig, IBig, UBig-IBig, IBig-UBig, ConstDivisor, primitives, is_multiple_of(_const)} x 4 sign combinations x "
         "divisor length {1,2,3,4,5,8,16,31,32,33,34,40,64,65,66 words} x quotient length {dividend shorter, 0,1,2,3,31,32,33,34,"
@@ -213,7 +236,11 @@ RULE = ("cases = call form (every operator / trait / ownership variant / Assign 
         "divide-and-conquer kernels at lengths on both sides of THRESHOLD_SIMPLE; scratch-memory cases (km / mm) measure the smallest "
         "sufficient scratch of the division kernels and of mul::add_signed_mul at lengths around 32/33 (division) and 24/25, 48..51, "
         "96/97, 192/193, 386/387, 579 (multiplication inside). Division by zero in every form. Non-trivial = both operands non-zero "
-        "and the oracle evaluated the Coq specification (memory cases: scratch actually used); distinct = distinct case texts.")
+        "and the oracle evaluated the Coq specification (memory cases: scratch actually used); distinct = distinct case texts. "
+        "ConstDivisor construction (c.fields: stored shift / divisor / reciprocal for 0-, 1-, 2-, 3-, 5-, 33-word divisors) and multi-word "
+        "ConstDivisors with leading zeros in the top word. A reduced list (1500 cases quick / 12000 thorough per build: every op and call "
+        "form, corpus included) runs against the release build (must also answer exactly as the verif build) and against the "
+        "force_bits=\"32\" build with sizes counted in 32-bit words (divisor / quotient 31..34 words, 2^32..2^63 power-of-two double words).")
 EXPLANATION = ("Theorems in coq/props/C02.v (sign layer = spec for all signs; spec has the identity and is unique; word kernels, "
                "Knuth D, whole schoolbook division, divide-and-conquer (sound and total), algorithm switch, normalisation/top-word "
                "carry, div_rem_large, ConstDivisor paths = floor division, unconditional for the transcribed instance; round 3: the "
@@ -221,7 +248,13 @@ EXPLANATION = ("Theorems in coq/props/C02.v (sign layer = spec for all signs; sp
                "lengths, the index loops of fast_rem_* are panic-free, primitive macro rows). Tie: sign tables (tools/translate.py) and "
                "coq/gen/DivDispatch.v (tools/translate_c02_r3.py: memory formulas, kernel selection, allocation traces, match arms, macro "
                "rows) are regenerated from the sources each run; every other model is compared with the implementation "
-               "(fidelity must be 100%), the memory model through bisection of the smallest sufficient scratch.")
+               "(fidelity must be 100%), the memory model through bisection of the smallest sufficient scratch. Round 4: coq/gen/DivKernelsGen.v, "
+               "DivReprGen.v (the loop kernels and the repr helpers as Gallina, regenerated by tools/translate_c02_r4.py; theorems C02_gen_*: "
+               "generated = hand model for every w; a source edit changes the generated function and breaks the equality proof, an edit in a "
+               "style the translator cannot read keeps the last good copy and is reported `unparsed`), DivAssertsGen.v (C02_debug_asserts_keep_"
+               "side_effects), C02_const_new* (construction). The oracle evaluates the generated kernels on every case with a dividend of "
+               "more than two words, and runs the release and the 32-bit build on a reduced list (extra phase; a failure there is replayed "
+               "with ./check C02 --replay <file>, the plug-in substitutes the recorded build).")
 TRUSTED_BASE = [
     "Coq 8.16.1 kernel",
     "tools/translate.py renders impl_ibig_div/rem/divrem/div_euclid/rem_euclid/divrem_euclid and impl_ubig_ibig_* faithfully (magnitude `/`, `%`, div_rem -> Z./, Z.modulo on non-negative magnitudes; with_sign -> signed)",
@@ -230,6 +263,10 @@ TRUSTED_BASE = [
     "extraction: ExtrOcamlBasic + ExtrOcamlZBigInt + coq/extract/FastZ.v; OCaml 4.13.1 + zarith; oracle/common.ml, oracle/driver_c02.ml",
     "Rust harness harness/src/bin/c02.rs (values moved through raw words), hooks dashu_int::verif_hooks::{div_kernel, div_kernel_scratch, div_scratch_words, mul_kernel_scratch, mul_scratch_words}",
     "shift kernels (shl_in_place / shr_in_place) and add/sub/sub_mul word kernels are re-modelled locally in Int/DivWordModel.v with their contracts proved there; mul::add_signed_mul is C01's model (contract proved for w >= 8)",
+    "tools/translate_c02_r4.py + tools/translate_c01_r4.py (library): Rust loops -> Gallina folds (for / reverse for / rchunks / index while / window while / split_last), exact integer meaning of + - * << >> | & on words (range premises in the theorems), `debug_assert_zero!(e)` = evaluate e, other debug_assert*! dropped, FastDivideNormalized(2) values = the normalised divisor with the primitives as record fields; atoms in Int/DivKernelsBase.v (trailing_zeros x = log2 gcd(x, 2^log2 x), split_last, shr_word, k_* = hand models of other files' kernels)",
+    "the side-effect classifier of the debug-assertion list (regex: `&mut`, *_in_place, add_signed_mul*, add_mul_* / sub_mul_*, buffer mutators) and the recognition of the macro body `let __check__ = $($arg)*; debug_assert_eq!(__check__ ..)` in helper_macros.rs",
+    "ConstDivisor fields are read from `{:?}` (derived Debug of ConstDivisor, PreMulInv2by1/3by2, Normalized2by1/3by2Divisor) by the harness",
+    "core.CONFIGS release / w32 builds of the harness; the oracle takes the word size from the environment variable C02_W set by the plug-in",
 ]
 ASSUMPTIONS = [
     "UBig::from_words / as_words / IBig::from_parts / as_sign_words transport values faithfully",
@@ -531,6 +568,13 @@ def gen_cases(rng, tier, n):
     return out
 
 
+# 32-bit build: power-of-two double-word divisor 2^44 (shift = trailing_zeros - WORD_BITS), double word 2^44 + 1, a three-word
+# ConstDivisor with 31 leading zeros, single / double / large construction
+W32_FIXED = ["u.div_rem 10000000000000000000003039 100000000000", "u.rem 10000000000000000000003039 100000000001",
+             "uc.div_rem 70000000000000026 10000000000000005", "c.fields a", "c.fields 1000000007", "c.fields 10000000000000005",
+             "i.div_rem_euclid -10000000000000000000003039 100000000000"]
+
+
 def other_build_cases(rng, tier, n, wbits):
     """the reduced list for the release and the 32-bit build: every division op and call form (u / i / ui / iu / uc / ic with every
     trait form, c.value, c.fields, mc, the kernel hook, a few scratch cases), sizes counted in words of THAT build (thresholds 32/33
@@ -543,6 +587,8 @@ def other_build_cases(rng, tier, n, wbits):
         if wbits == 64:
             cp = os.path.join(core.ROOT, "corpus", "C02.txt")
             out += [l.strip() for l in open(cp) if l.strip() and not l.startswith("#")]
+        else:
+            out += list(W32_FIXED)
         forms = list(SAME_FORMS)
         k = 0
         while len(out) < n:
